@@ -70,8 +70,17 @@ func c01rKeys(rows []c01rRow) []string {
 	return out
 }
 
+// sorted returns the set of the given strings in order (an entry listed twice counts once: duplicates are judged on the
+// plain request, not again on every variant).
 func sorted(in []string) []string {
-	out := append([]string(nil), in...)
+	seen := map[string]bool{}
+	var out []string
+	for _, x := range in {
+		if !seen[x] {
+			seen[x] = true
+			out = append(out, x)
+		}
+	}
 	sort.Strings(out)
 	return out
 }
@@ -283,6 +292,15 @@ func c01rAtRest(s *verifsim.Sim, n *restNode, clients []*cblClient, where string
 					s.Debugf("C01R plain raw answer: %s", rawBase)
 				}
 				same("filter=_doc_ids "+string(idsJSON)+" (live rows, as sets)", sorted(live(a.Results)), sorted(live(restricted)))
+				// recorded finding: the document-id feed flags the current, fetchable revision of a document as deleted when the
+				// document left one of the user's channels as a tombstone earlier and lives on in another channel
+				if vio != nil && vio.Clause == "variant-differs" && vio.Key == "" && strings.Contains(vio.Detail, "filter=_doc_ids") {
+					for _, r := range a.Results {
+						if r.Deleted && len(r.Changes) > 0 && fetchable[r.ID] == r.Changes[0].Rev {
+							vio.Key = "doc-id-feed-reports-a-live-revision-as-deleted"
+						}
+					}
+				}
 			}
 			c.mu.Lock()
 			var mine []string
